@@ -66,6 +66,8 @@ type BEMap {BE:Int}`
 // World is the set of shared objects of one execution.
 type World struct {
 	Basic     datamodel.Node
+	StartPath datamodel.Path // a path value several walks start from (length 3: built by appending, it has spare capacity)
+	PoppedPath datamodel.Path // a path value obtained by Pop (spare capacity by construction)
 	Link2     datamodel.Link // a second intact block in the memstore
 	LinkBad   datamodel.Link // a block whose stored bytes do not hash to it
 	Bind      schema.TypedNode
@@ -124,6 +126,8 @@ func NewWorld() *World {
 	if err != nil {
 		panic(err)
 	}
+	w.StartPath = datamodel.ParsePath("mnt/vol").AppendSegmentString("root")
+	w.PoppedPath = datamodel.ParsePath("a/b/c/d/e").Pop()
 	// a second intact block, and a block whose stored bytes do not hash to its link (a load of it is a
 	// hash-mismatch error, after which loads of the intact blocks must be what they were)
 	if w.Link2, err = ls.Store(linking.LinkContext{}, p.LP(), ref.Basic(ref.List(ref.Int(1), ref.Str("second block"), ref.Int(3)))); err != nil {
@@ -198,6 +202,15 @@ func walk(cfg *traversal.Config, root datamodel.Node, sel selector.Selector) str
 	return fmt.Sprint(out, err)
 }
 
+func walkFrom(cfg *traversal.Config, start datamodel.Path, root datamodel.Node, sel selector.Selector) string {
+	var out []string
+	err := traversal.Progress{Cfg: cfg, Path: start}.WalkAdv(root, sel, func(p traversal.Progress, n datamodel.Node, r traversal.VisitReason) error {
+		out = append(out, p.Path.String())
+		return nil
+	})
+	return fmt.Sprint(out, err)
+}
+
 func Ops() []Op {
 	return []Op{
 		{"observe-basic", func(w *World) string { v, _ := ref.Observe(w.Basic); return v.Key() }},
@@ -264,6 +277,16 @@ func Ops() []Op {
 		{"walk-config-set", func(w *World) string { return walk(w.CfgSet, w.Root, w.Sel) }},
 		{"walk-limited-recursion-under-all", func(w *World) string { return walk(w.CfgSet, w.Deep, w.SelLimA) }},
 		{"walk-limited-recursion-under-fields", func(w *World) string { return walk(w.CfgSet, w.Deep, w.SelLimF) }},
+		// a Progress is passed by value, the Path in it is a value too: walks started from one shared
+		// path value report their own paths
+		{"walk-from-shared-start-path", func(w *World) string { return walkFrom(w.CfgSet, w.StartPath, w.Deep, w.Sel) }},
+		{"walk-from-shared-popped-path", func(w *World) string { return walkFrom(w.CfgSet, w.PoppedPath, w.Root, w.Sel) }},
+		{"extend-shared-path-value", func(w *World) string {
+			a := w.StartPath.AppendSegmentString("x")
+			b := w.PoppedPath.AppendSegmentString("y").AppendSegmentString("z")
+			c := w.StartPath.Join(w.PoppedPath)
+			return a.String() + " " + b.String() + " " + c.String() + " " + w.StartPath.String() + " " + w.PoppedPath.String()
+		}},
 		{"walk-matching-default-config", func(w *World) string {
 			n := 0
 			err := traversal.WalkMatching(w.Basic, w.Sel, func(traversal.Progress, datamodel.Node) error { n++; return nil })
